@@ -24,7 +24,9 @@ Print Assumptions C08_trace_accepted.
 (* The same for histories in which a teardown of peer p (disconnect, entity-removing discovery
    notification or reply) is overlapped by a subscribe / bind / delete call of another peer q
    (Model/StackX.v [During]: the call arrives while the removal cascade runs, waits for the registry
-   mutex and is applied afterwards; its observations are judged as the call following the teardown). *)
+   mutex and is applied afterwards; its observations are judged as the call following the teardown),
+   and for histories in which a DELETE call of p is overlapped in the same way: the call of q arrives
+   while the delete sits between its filter and its store, inside the registry's critical section. *)
 Theorem C08_overlap_trace_accepted : forall xops, xaccepted (xjudge mon minit (snd (xrun init xops))) = true.
 Proof. exact xrun_accepted. Qed.
 Print Assumptions C08_overlap_trace_accepted.
@@ -85,4 +87,22 @@ Example C08_delete_by_connection :
       [OResult 2 23 true (a (Some 0%N) [0%N] 0) (a (Some 1%N) [0%N] 0)];
       [OEntry 1 (a (Some 0%N) [1%N] 1) (a (Some 1%N) [1%N] 1)] ] /\
   accepted (judge minit (snd (run init c08_twins))) = true.
+Proof. vm_compute. split; reflexivity. Qed.
+
+(* A delete call of peer 1 overlapped by a subscribe call of peer 2 (the delete sits between its
+   filter and its store when the call arrives): both take effect - peer 1's entry is gone, peer 2's
+   acknowledged subscription is listed. *)
+Definition c08_delete_overlap : list xop :=
+  map Base [ AddLocalEntity [1%N]; AddLocalFeature [1%N] 1 RServer; AddFunction [1%N] 1 1 true true;
+             Connect 1; DiscoveryReply 1 (tree 1); Connect 2; DiscoveryReply 2 (tree 2); SubCall 1 11 false (call 1) ] ++
+  [ During (SubDelete 1 12 true (call 1)) (SubCall 2 21 true (call 2)); Base (ListSubs 1); Base (ListSubs 2) ].
+Example C08_delete_overlap_nonvacuous :
+  map snd (skipn 8 (snd (xrun init c08_delete_overlap))) =
+    [ [OEvent EvSub ChRemove 1 (Some [1%N]) (Some (a (Some 1%N) [1%N] 1)) (Some (a (Some 0%N) [1%N] 1));
+       OResult 1 12 false (a (Some 0%N) [0%N] 0) (a (Some 1%N) [0%N] 0);
+       OEvent EvSub ChAdd 2 (Some [1%N]) (Some (a (Some 2%N) [1%N] 1)) (Some (a (Some 0%N) [1%N] 1));
+       OResult 2 21 false (a (Some 0%N) [0%N] 0) (a (Some 2%N) [0%N] 0)];
+      [];
+      [OEntry 2 (a (Some 0%N) [1%N] 1) (a (Some 2%N) [1%N] 1)] ] /\
+  xaccepted (xjudge mon minit (snd (xrun init c08_delete_overlap))) = true.
 Proof. vm_compute. split; reflexivity. Qed.
